@@ -21,6 +21,7 @@ import (
 const rule = "cases = (trie-grown route set, request derived from a registered pattern by hostile instantiation and perturbation); " +
 	"a case is distinct by (route set, request) and non-trivial when the reference matcher needed at least one wildcard capture or one failed branch to decide it; " +
 	"a third of the cases go through delete churn first (temporary routes grown from the registered ones - path extensions, hostname super/sub-domains, other methods - registered and deleted again in random order); " +
+	"a quarter of the cases register their last routes through a write transaction: lookups through it and its snapshot follow the full set, while the router keeps routing like the set before it; " +
 	"plus the exhaustive small space (all sets of <=3 or <=4 patterns of a fixed pool x all paths of <=3 segments over 4 values)"
 
 type caseFile struct {
